@@ -704,6 +704,8 @@ struct Obs {
     exit: Option<i32>,
     stderr: String,
     files: BTreeMap<String, Vec<u8>>,
+    /// the same project built again over longer, stale files of the same names: what differed (None: nothing, or not tried)
+    rebuild_differs: Option<String>,
 }
 
 struct Runner {
@@ -712,6 +714,8 @@ struct Runner {
     n: AtomicU64,
     machinery_failed: AtomicBool,
     machinery_msg: Mutex<Option<String>>,
+    rebuild_all: bool,
+    rebuilds: AtomicU64,
 }
 
 impl Runner {
@@ -725,6 +729,8 @@ impl Runner {
             n: AtomicU64::new(0),
             machinery_failed: AtomicBool::new(false),
             machinery_msg: Mutex::new(None),
+            rebuild_all: ctx.tier.is_thorough(),
+            rebuilds: AtomicU64::new(0),
         }
     }
 
@@ -776,10 +782,52 @@ impl Runner {
         }
         let mut stderr = String::from_utf8_lossy(&out.stderr).to_string();
         stderr.push_str(&String::from_utf8_lossy(&out.stdout));
+        // A build writes its files whatever is in the target directory already: every output file gets a stale tail
+        // (as a previous, longer build would have left it) and the project is built again (every configuration in the
+        // thorough tier, every 4th in the quick tier).
+        let mut rebuild_differs = None;
+        let n = self.n.load(Ordering::Relaxed);
+        if out.status.code() == Some(0) && !files.is_empty() && (self.rebuild_all || n % 4 == 0) {
+            for (name, bytes) in &files {
+                let mut longer = bytes.clone();
+                longer.extend(std::iter::repeat(0x55u8).take(24));
+                std::fs::write(target.join(name), longer).map_err(|e| format!("write {}: {}", name, e))?;
+            }
+            let out2 = Command::new(&self.mos)
+                .args(["-e", "Short", "--no-color", "build"])
+                .current_dir(dir)
+                .env_remove("RUST_LOG")
+                .env("RUST_BACKTRACE", "0")
+                .stdin(std::process::Stdio::null())
+                .output()
+                .map_err(|e| format!("cannot run {}: {}", self.mos.display(), e))?;
+            let mut files2 = BTreeMap::new();
+            if let Ok(rd) = std::fs::read_dir(&target) {
+                for e in rd.flatten() {
+                    let p = e.path();
+                    if p.is_file() {
+                        files2.insert(e.file_name().to_string_lossy().to_string(), std::fs::read(&p).unwrap_or_default());
+                    }
+                }
+            }
+            if out2.status.code() != Some(0) {
+                rebuild_differs = Some(format!("the second build exits {:?}", out2.status.code()));
+            } else if files2 != files {
+                let name = files.keys().find(|k| files2.get(*k) != files.get(*k)).cloned().unwrap_or_default();
+                rebuild_differs = Some(format!(
+                    "{} is {} bytes after the first build and {} bytes after the second (the file held a 24 byte longer, stale version in between)",
+                    name,
+                    files.get(&name).map(|b| b.len()).unwrap_or(0),
+                    files2.get(&name).map(|b| b.len()).unwrap_or(0)
+                ));
+            }
+            self.rebuilds.fetch_add(1, Ordering::Relaxed);
+        }
         Ok(Obs {
             exit: out.status.code(),
             stderr,
             files,
+            rebuild_differs,
         })
     }
 }
@@ -951,6 +999,10 @@ fn judge(m: &Model, obs: &Obs) -> Outcome {
                 return o;
             }
             o.took_verdict = true;
+            if let Some(d) = &obs.rebuild_differs {
+                o.failure = Some(("stale-content-after-rebuild".into(), format!("building the same project a second time does not give the same files: {}", d)));
+                return o;
+            }
             if m.files.iter().all(|f| f.known) {
                 o.counts.push("verdict_builds_full");
             } else {
@@ -1715,6 +1767,7 @@ pub fn run(ctx: &Ctx, replay_case: Option<&Value>) -> i32 {
         ctx.note("reduction budget exhausted: later failing configurations carry an ':unreduced' signature");
     }
     let _ = std::fs::remove_dir(&rn.scratch);
+    ctx.set("rebuilds_over_stale_files", json!(rn.rebuilds.load(Ordering::Relaxed)));
 
     ctx.finish(
         "exploration",
